@@ -116,7 +116,7 @@ class BudgetExceeded(BaseException):
 
 class _CountingTable(dict):
     """parse_table whose lookups are counted: every expansion of the parse loop does one `.get`"""
-    budget = 200000
+    budget = 2000000
 
     def get(self, k, d=None):
         self.n = getattr(self, "n", 0) + 1
@@ -262,15 +262,23 @@ def diag_reply(parser, op):
 
 
 def impl(case, trace_budget=None, parse_budget=None):
-    out, parser = [], None
+    out, parser, overrun = [], None, False
     for line in case["lines"]:
         op = line.split()[0]
         if op == "g":
             spec, smart = dec_g(line)
             parser, rep = build(spec, smart, trace_budget)
+            overrun = False
             out.append(rep)
         elif op == "p":
-            out.append("nogrammar" if parser is None else parse_reply(parser, dec_p(line), parse_budget or trace_budget))
+            if parser is None:
+                out.append("nogrammar")
+            elif overrun:           # one overrun per parser is enough evidence; do not burn the budget again
+                out.append("skipped-after-BudgetExceeded")
+            else:
+                rep = parse_reply(parser, dec_p(line), parse_budget or trace_budget)
+                overrun = rep == "err BudgetExceeded"
+                out.append(rep)
         elif op in DIAG_OPS:
             out.append("nogrammar" if parser is None else diag_reply(parser, op))
         elif op == "reset":
@@ -816,7 +824,8 @@ def gen_spec(rng, malformed_share=0.05, hidden_share=0.04, ll1_share=0.2):
 
 
 def gen_ll_cases(rng, n_grammars, maxlen, extra_long=0, rec_maxlen=2, malformed_share=0.05, sentences=25,
-                 hidden_share=0.04, diags=("prods", "suffix", "table", "nullables", "first", "follow"), ll1_share=0.2):
+                 hidden_share=0.04, diags=("prods", "suffix", "table", "nullables", "first", "follow"), ll1_share=0.2,
+                 sent_maxlen=7):
     for _ in range(n_grammars):
         spec, var_name, meta = gen_spec(rng, malformed_share, hidden_share, ll1_share)
         var = VARIANTS[var_name]
@@ -826,11 +835,11 @@ def gen_ll_cases(rng, n_grammars, maxlen, extra_long=0, rec_maxlen=2, malformed_
         ml = maxlen if (ok and not rec) else rec_maxlen
         words = list(all_strings(var["T"], ml))
         if ok and not rec:
-            for w in sample_sentences(rng, user_grammar(spec), spec["start"], sentences):
+            for w in sample_sentences(rng, user_grammar(spec), spec["start"], sentences, sent_maxlen):
                 if w not in words:
                     words.append(w)
             for _ in range(extra_long):
-                words.append([rng.choice(var["T"]) for _ in range(rng.randint(maxlen + 1, maxlen + 4))])
+                words.append([rng.choice(var["T"]) for _ in range(rng.randint(maxlen + 1, maxlen + 2))])
         texts = [render(rng, var, w) for w in words]
         yield make_case(spec, var_name, words, texts, meta, diags=diags)
 
